@@ -55,9 +55,9 @@ def _ref_weight_lanes(p, t, constrained, prefix, nlane):
             acc.fill(sj.RV(0))
         return acc
     if p.kind == "vmap":
-        return _ref_weight_lanes(p.callee, t, constrained, prefix, nlane + 1)
+        return _sum_trailing(_ref_weight_lanes(p.callee, t, constrained, prefix, nlane + 1), nlane)
     if p.kind == "scan":
-        return _ref_weight_lanes(p.callee, t.traces, constrained, prefix, nlane + 1)
+        return _sum_trailing(_ref_weight_lanes(p.callee, t.traces, constrained, prefix, nlane + 1), nlane)
     if p.kind == "cond":
         return rs._where(t.check, _ref_weight_lanes(p.a, t.trs[0], constrained, prefix, nlane),
                          _ref_weight_lanes(p.b, t.trs[1], constrained, prefix, nlane))
